@@ -140,7 +140,7 @@ PROPS.update({
                "checks the bound after each single diff of both stream flavours."),
         technique="Lean 4 proof (bounded-run predicate by case analysis and induction over replicate/map runs) + model/implementation correspondence",
         design_ref="DESIGN.md §6 C15"),
-    "C11": dict(adp_prop(["EyeballVerif.Props.C11", "EyeballVerif.Props.C11Sort", "EyeballVerif.Props.StageSound", "EyeballVerif.Props.PipeSoundSort", "EyeballVerif.Lemmas.SortInv", "EyeballVerif.Lemmas.Bsearch"],
+    "C11": dict(adp_prop(["EyeballVerif.Props.C11", "EyeballVerif.Props.C11Sort", "EyeballVerif.Props.StageSound", "EyeballVerif.Props.PipeSoundSort", "EyeballVerif.Props.PipeSoundUS", "EyeballVerif.Lemmas.SortInv", "EyeballVerif.Lemmas.Bsearch"],
         "sort_handle_sound: for every lawful comparator (total preorder), every sort function meeting the sort specification, every source, buffer and valid diff that is not a shortening Truncate: the arm does not "
         "panic, the emitted diffs replayed strictly on the old sorted view give the new one, and the new buffer is a sorted permutation of the position-tagged new source (SInvP; sinvP_sinv: every position exactly once "
         "with its item); sort_run_sound: the same over whole histories from SortImpl::new on (induction); bsearch_spec (imbl's binary_search_by loop, strong induction); appendLoop_spec (the Append arm's loop, induction); "
@@ -152,7 +152,7 @@ PROPS.update({
                "differential run (every source over an alphabet with ties x 4 comparators x every operation) and the implementation-side sorted-permutation oracle."),
         technique="Lean 4 proof (invariant by induction over histories, one lemma per arm, loop invariants for binary search and the Append loop; kernel-checked counterexample for the known finding) + model/implementation correspondence",
         design_ref="DESIGN.md §6 C11"),
-    "C12": dict(adp_prop(["EyeballVerif.Props.C12", "EyeballVerif.Props.ChainSound", "EyeballVerif.Props.PipeSound", "EyeballVerif.Props.PipeSoundSort", "EyeballVerif.Props.PipeSoundU", "EyeballVerif.Props.PipeSoundD", "EyeballVerif.Lemmas.TruncInv", "EyeballVerif.Props.PipeSoundUD"],
+    "C12": dict(adp_prop(["EyeballVerif.Props.C12", "EyeballVerif.Props.ChainSound", "EyeballVerif.Props.PipeSound", "EyeballVerif.Props.PipeSoundSort", "EyeballVerif.Props.PipeSoundU", "EyeballVerif.Props.PipeSoundD", "EyeballVerif.Lemmas.TruncInv", "EyeballVerif.Props.PipeSoundUD", "EyeballVerif.Props.PipeSoundUS"],
         "pipe_poll_sound + pipeInv_initial: for the batched flavour and static chains of Head/Tail/Skip/Filter stages of any depth, the pipeline invariant (vector invariants VInv + TInv, receiver replica defined, ChainInv for that replica) holds from construction at any reachable state and is preserved by every poll of the real poll loop (pollStages), no stage panics, and an item handed out is a valid container taking the composed view before the poll to the composed view after it (Pending/End leave it unchanged); tinv_run: everything owed to a receiver is a valid container (every Truncate shortens); "
         "chain_sound: for every chain of adapters (any kinds, any depth) whose stages satisfy their invariants and every valid container from the source that brings no Truncate to a Sort stage: no stage panics, the invariants hold "
         "afterwards, and the diffs coming out at the top take the old composed view to the new composed view, strictly, and are again a valid container (induction over the chain; stage_onDiffs_sound per stage; "
